@@ -3,6 +3,8 @@ package rules
 import (
 	"go/token"
 	"go/types"
+	"reflect"
+	"strings"
 
 	"golang.org/x/tools/go/ssa"
 
@@ -26,6 +28,8 @@ import (
 //	R-result-identity   what the transports wrap into the response is the value the entry returned
 //	R-error-internal    every path from the err != nil edge of a transport's call of the entry builds a -32603 answer
 //	R-own-context       the context handed to the dispatcher derives from the request's own context
+//	R-session-in-context  the dispatched context descends from a call that stores the session under the key the exported accessor reads
+//	R-id-presence       servers classify a message by the presence of its id (comparison with nil), never by its value
 func init() { Registry["C15"] = checkC15 }
 
 func checkC15(c *Ctx) {
@@ -576,6 +580,8 @@ func checkC15(c *Ctx) {
 	}
 	c.R.Min("R-result-identity", 3)
 	dispatchOwnContext(c, "R-own-context")
+	c15SessionInContext(c)
+	c15IDPresence(c)
 
 	// ---- R-error-internal: "a middleware error becomes a JSON-RPC internal error for that request": wherever a
 	// transport calls the request entry, every path that leaves the err != nil edge builds an answer with code -32603.
@@ -714,3 +720,280 @@ func checkC15(c *Ctx) {
 }
 
 func isMinusOne(v ssa.Value) bool { n, ok := ir.ConstInt(v); return ok && n == -1 }
+
+// ---------------------------------------------------------------- R-session-in-context
+// "With the request's own context and session": a middleware reads the session out of the context it is handed, with
+// the exported accessors (GetSessionFromContext everywhere; ClientSessionFromContext, the accessor documented on
+// HandlerFunc, on the legacy SSE server). That works only if every context a server hands to the dispatcher descends
+// from a call that puts the session under the key that accessor reads. The accessors and their keys are read from the
+// code; which accessor works on which transport today is the reference table below (more is fine, less is not).
+var sessionAccessorTable = []struct {
+	accessor string // exported accessor
+	server   string // exported server type whose ServeHTTP reaches the dispatch ("" = every server-side dispatch)
+}{
+	{"GetSessionFromContext", ""},
+	{"ClientSessionFromContext", "SSEServer"},
+}
+
+func c15SessionInContext(c *Ctx) {
+	n := 0
+	for _, row := range sessionAccessorTable {
+		// the key the accessor reads
+		var keyT types.Type
+		var acc *ssa.Function
+		for _, fn := range c.P.LibFns {
+			if fn.Name() == row.accessor && fn.Signature.Recv() == nil && fn.Pkg != nil && fn.Pkg.Pkg.Path() == ir.RootPath {
+				acc = fn
+			}
+		}
+		if acc == nil {
+			c.R.Break("R-session-in-context: exported accessor %s not found", row.accessor)
+			continue
+		}
+		ir.EachInstr(acc, func(_ *ssa.BasicBlock, _ int, in ssa.Instruction) {
+			if call, ok := in.(*ssa.Call); ok && ir.CallName(call) == "(context.Context).Value" && len(call.Call.Args) == 1 {
+				if mi, ok := call.Call.Args[0].(*ssa.MakeInterface); ok {
+					keyT = mi.X.Type()
+				}
+			}
+		})
+		if keyT == nil {
+			c.R.Break("R-session-in-context: cannot read the context key %s looks up", row.accessor)
+			continue
+		}
+		// injectors: functions returning a context that put a value under that key (directly, or by calling one that does)
+		inj := map[*ssa.Function]bool{}
+		for _, fn := range c.P.LibFns {
+			ir.EachInstr(fn, func(_ *ssa.BasicBlock, _ int, in ssa.Instruction) {
+				if call, ok := in.(*ssa.Call); ok && ir.CallName(call) == "context.WithValue" && len(call.Call.Args) == 3 {
+					if mi, ok := call.Call.Args[1].(*ssa.MakeInterface); ok && types.Identical(mi.X.Type(), keyT) {
+						inj[fn] = true
+					}
+				}
+			})
+		}
+		directWithValue := func(call *ssa.Call) bool {
+			if ir.CallName(call) != "context.WithValue" || len(call.Call.Args) != 3 {
+				return false
+			}
+			mi, ok := call.Call.Args[1].(*ssa.MakeInterface)
+			return ok && types.Identical(mi.X.Type(), keyT)
+		}
+		returnsCtx := func(fn *ssa.Function) bool {
+			r := fn.Signature.Results()
+			return r.Len() >= 1 && ir.TypeStr(r.At(0).Type()) == "context.Context"
+		}
+		for fn := range inj {
+			if !returnsCtx(fn) {
+				delete(inj, fn)
+			}
+		}
+		if len(inj) == 0 {
+			c.R.Break("R-session-in-context: no function puts a value under the key %s reads", row.accessor)
+			continue
+		}
+		w := &ctxWalker{c: c, cond: true}
+		w.pass = func(call *ssa.Call) bool {
+			if directWithValue(call) {
+				return true
+			}
+			sc := ir.StaticCallee(call)
+			if sc == nil {
+				return false
+			}
+			if inj[sc] {
+				return true
+			}
+			// a library helper that derives the context it returns through an injector
+			if !c.P.IsLib(sc) || !returnsCtx(sc) || sc.Blocks == nil {
+				return false
+			}
+			all, any := true, false
+			for _, b := range sc.Blocks {
+				ret, ok := b.Instrs[len(b.Instrs)-1].(*ssa.Return)
+				if !ok || b == sc.Recover {
+					continue
+				}
+				any = true
+				inner := &ctxWalker{c: c, pass: func(c2 *ssa.Call) bool {
+					if directWithValue(c2) {
+						return true
+					}
+					s2 := ir.StaticCallee(c2)
+					return s2 != nil && inj[s2]
+				}}
+				// inside the helper, the helper's own parameter is "not yet injected"
+				if ok, _ := inner.descendsLocal(sc, ir.Results(ret)[0], 0, map[ctxKey]bool{}); !ok {
+					all = false
+				}
+			}
+			return any && all
+		}
+		var scope map[*ssa.Function]bool
+		if row.server != "" {
+			var roots []*ssa.Function
+			for _, fn := range c.P.LibFns {
+				if fn.Name() == "ServeHTTP" && fn.Signature.Recv() != nil && strings.HasSuffix(ir.TypeStr(fn.Signature.Recv().Type()), "."+row.server) {
+					roots = append(roots, fn)
+				}
+			}
+			if len(roots) == 0 {
+				c.R.Break("R-session-in-context: no ServeHTTP of %s", row.server)
+				continue
+			}
+			scope = c.Reach(roots...)
+			w.scope = scope
+		}
+		for _, fn := range c.P.LibFns {
+			if clientSide(c, fn) || (scope != nil && !scope[fn]) {
+				continue
+			}
+			ir.EachInstr(fn, func(_ *ssa.BasicBlock, _ int, in ssa.Instruction) {
+				call, ok := in.(ssa.CallInstruction)
+				if !ok || !c.isDispatchCall(call) {
+					return
+				}
+				for _, a := range call.Common().Args {
+					if ir.TypeStr(a.Type()) != "context.Context" {
+						continue
+					}
+					n++
+					ok, why := w.descends(fn, a, 0, map[ctxKey]bool{})
+					c.R.Check(ok, "R-session-in-context", sprintf("%s readable in the context dispatched by %s", row.accessor, fname(fn)), c.Pos(call.Pos()),
+						"the context descends from a call that stores the session under the key the accessor reads",
+						sprintf("%s hands the dispatcher a context that descends from %s without the session having been put under the key %s reads: every middleware of these requests gets no session from that accessor", fname(fn), why, row.accessor))
+				}
+			})
+		}
+	}
+	c.R.Min("R-session-in-context", 4)
+	if n == 0 {
+		c.R.Break("R-session-in-context: no dispatch site examined")
+	}
+}
+
+// ---------------------------------------------------------------- R-id-presence
+// Whether an incoming message is a request — answered, and passed through the chain — or a notification is decided by
+// the PRESENCE of its id: 0 and "" are ids like any other. On the server side every condition that depends on the id
+// member of a decoded message (a struct member tagged json:"id" of interface type) must therefore be the comparison of
+// that member with nil. A predicate computed from the id's value (a zero-value test, a length, a conversion) cannot
+// tell an absent id from a falsy one and routes such requests past the handler chain.
+func c15IDPresence(c *Ctx) {
+	isIDLoad := func(v ssa.Value) bool {
+		var st *types.Struct
+		var idx int
+		switch x := v.(type) {
+		case *ssa.UnOp:
+			fa, ok := x.X.(*ssa.FieldAddr)
+			if !ok || x.Op != token.MUL {
+				return false
+			}
+			pt, ok := fa.X.Type().Underlying().(*types.Pointer)
+			if !ok {
+				return false
+			}
+			st, _ = pt.Elem().Underlying().(*types.Struct)
+			idx = fa.Field
+		case *ssa.Field:
+			st, _ = x.X.Type().Underlying().(*types.Struct)
+			idx = x.Field
+		default:
+			return false
+		}
+		if st == nil || !types.IsInterface(st.Field(idx).Type()) {
+			return false
+		}
+		name := strings.Split(reflect.StructTag(st.Tag(idx)).Get("json"), ",")[0]
+		return name == "id"
+	}
+	isNilCmp := func(b *ssa.BinOp, v ssa.Value) bool {
+		if b.Op != token.EQL && b.Op != token.NEQ {
+			return false
+		}
+		other := b.Y
+		if b.Y == v {
+			other = b.X
+		}
+		k, ok := other.(*ssa.Const)
+		return ok && k.IsNil()
+	}
+	nLoads, nCond := 0, 0
+	for _, fn := range c.P.LibFns {
+		if !serverSide(c, fn) {
+			continue
+		}
+		ir.EachInstr(fn, func(_ *ssa.BasicBlock, _ int, in ssa.Instruction) {
+			v, ok := in.(ssa.Value)
+			if !ok || !isIDLoad(v) {
+				return
+			}
+			nLoads++
+			// forward slice of values computed from the id
+			seen := map[ssa.Value]bool{}
+			var visit func(x ssa.Value, computed bool, d int)
+			visit = func(x ssa.Value, computed bool, d int) {
+				if x.Referrers() == nil || d > 8 || seen[x] {
+					return
+				}
+				seen[x] = true
+				for _, r := range *x.Referrers() {
+					switch y := r.(type) {
+					case *ssa.BinOp:
+						if !computed && isNilCmp(y, x) {
+							nCond++
+							continue // presence test
+						}
+						visit(y, true, d+1)
+					case *ssa.UnOp:
+						if y.Op == token.NOT || y.Op == token.SUB {
+							visit(y, computed, d+1)
+						}
+					case *ssa.Phi:
+						if _, isBool := y.Type().Underlying().(*types.Basic); isBool && computed {
+							visit(y, computed, d+1)
+						}
+					case *ssa.MakeInterface:
+						visit(y, computed, d+1)
+					case *ssa.ChangeInterface:
+						visit(y, computed, d+1)
+					case *ssa.ChangeType:
+						visit(y, computed, d+1)
+					case *ssa.TypeAssert:
+						visit(y, true, d+1)
+					case *ssa.Extract:
+						visit(y, computed, d+1)
+					case *ssa.Call:
+						// a value computed from the id by a function: only boolean / numeric / string results can become a test
+						isArg := false
+						for _, a := range y.Call.Args {
+							if a == x {
+								isArg = true
+							}
+						}
+						if !isArg {
+							continue
+						}
+						if b, ok := y.Type().Underlying().(*types.Basic); ok && b.Info()&types.IsBoolean != 0 {
+							visit(y, true, d+1)
+						}
+					case *ssa.If:
+						if computed {
+							c.R.Violate("R-id-presence", sprintf("test computed from the id in %s", fname(fn)), c.Pos(v.Pos()),
+								sprintf("%s branches on a value computed from the id of a decoded message instead of on the id's presence (comparison with nil): an id such as 0 or \"\" is taken for absent, the request is treated as a notification, never reaches the handler chain and gets no answer", fname(fn)))
+						}
+					case *ssa.Return:
+						if b, ok := x.Type().Underlying().(*types.Basic); ok && b.Info()&types.IsBoolean != 0 && computed {
+							c.R.Violate("R-id-presence", sprintf("predicate computed from the id in %s", fname(fn)), c.Pos(v.Pos()),
+								sprintf("%s returns a predicate computed from the id of a decoded message (not just its comparison with nil): an id such as 0 or \"\" cannot be told from an absent one, so such requests are classified as notifications and bypass the handler chain", fname(fn)))
+						}
+					}
+				}
+			}
+			visit(v, false, 0)
+		})
+	}
+	if nLoads < 6 || nCond < 6 {
+		c.R.Break("R-id-presence: only %d loads of an id member and %d presence tests found on the server side", nLoads, nCond)
+	}
+	c.R.Hold("R-id-presence", "id members of decoded messages on the server side", "", sprintf("%d loads examined, %d presence tests (comparison with nil), no test computed from the id's value", nLoads, nCond))
+}
